@@ -14,6 +14,13 @@ CHECKS = {
         note="Trusted: ASE Atoms/constraints, harness calculators, numpy. Menus under-approximate continuous draws (2 joint values for the first draw of a trial); atom counts <= 5; depth <= 4.",
         technique="stateless exhaustive exploration of the implementation (choice-point generator, prefix replay DFS) with snapshot and differential-futures oracles",
     ),
+    "C05": dict(
+        category="model_checking",
+        text="All accept/reject/fail histories (depth 3 quick, 4 thorough; 2-3 for composites) of real GrandCanonical runs over 20+ move tables (several label-bearing moves, + and * composites, the same object under two names, atomic/molecular species, unsorted/non-contiguous/negative labelings, default_label in {None,0,3,-1}) are enumerated; after every trial a particle reference model (per-atom marker array) is compared with every (sub)move's labels, the particle counter and the exchange template.",
+        design_ref="4-C05",
+        note="Trusted: ASE extend/delete semantics (new atoms get zero in a custom array), harness criteria implementing only the documented protocol. One proposal value per draw; <= 5 atoms at start.",
+        technique="stateless exhaustive exploration of the implementation against a particle-id reference model compared after every trial",
+    ),
 }
 
 NA_REASON = "check not built yet in this session (design in DESIGN.md); no claim is made"
